@@ -82,6 +82,8 @@ pub uninterp spec fn ctx_limit<CT>(c: &Context<'_, CT>) -> nat;
 #[verifier::external_type_specification]
 #[verifier::external_body]
 pub struct ExSocketAddr(std::net::SocketAddr);
+#[verifier::external_type_specification]
+pub struct ExIpAddr(std::net::IpAddr);
 """
 
 # stand-ins for the two network resolvers called by `resolve` (async-recursive, sockets, timeouts: outside the verifier's reach).
@@ -596,6 +598,7 @@ def build(G):
     L, C, U, T, Z = G.src(LOCAL), G.src(CTX), G.src(UTYPES), G.src(TYPES), G.src(ZTYPES)
     G.item(Z, "enum", "ZoneResult", drop_derive=("Clone",))
     G.raw(STANDINS, ("spec", "local stand-ins"))
+    G.file(os.path.join(PRELUDE, "sockaddr.rs"))
     for (k, n) in (("enum", "ResolvedRecord"), ("enum", "ResolutionError"), ("struct", "Nameservers")):
         G.item(U, k, n, drop_derive=("Clone",))
         G.raw(UNIMPL_CLONE % {"T": n})
